@@ -15,7 +15,7 @@ Everything random is drawn from Hypothesis.
 """
 from hypothesis import strategies as st
 
-INT, REAL, FLAG, UVEC = "int", "real", "flag", "uvec"
+INT, REAL, FLAG, UVEC, CPLX = "int", "real", "flag", "uvec", "cplx"
 
 DEFAULT_PROFILE = dict(
     max_phases=3, max_ops=10, max_depth=3,
@@ -26,15 +26,19 @@ DEFAULT_PROFILE = dict(
     subscript_whole_array_results=True, raise_=True, nested_calls=True,
     persistent_arrays=True, name_pool="plain", zero_trip=True, negative_consts=True,
     dead_code=True, cond_in_call_args=True, bare_power=True, ne_operator=True,
-    pow_of_pow=True, loop_bound_vars=True, fresh_names=False, lookups=False,
+    pow_of_pow=True, loop_bound_vars=True, fresh_names=False, lookups=False, complex_vars=False, assign_all_state=False,
     real_temps=None, uvec_temps=None, arr_temps=None, flag_temps=None, int_temps=None,
 )
 
-REAL_TEMPS = ["x", "y1", "z", "w", "acc", "err"]
+# "v1"/"v2" are in every pool: within a phase a name keeps its type, but another phase may
+# re-use it with a different type (temporaries are per phase)
+REAL_TEMPS = ["x", "y1", "z", "w", "acc", "err", "v1", "v2"]
 INT_TEMPS = ["n", "m", "q"]
-ARR_TEMPS = ["a", "b", "c"]
-UVEC_TEMPS = ["k1", "k2", "ynew", "rhs"]
-FLAG_TEMPS = ["flag", "ok"]
+ARR_TEMPS = ["a", "b", "c", "v1"]
+UVEC_TEMPS = ["k1", "k2", "ynew", "rhs", "v2"]
+FLAG_TEMPS = ["flag", "ok", "v1"]
+CPLX_TEMPS = ["c1", "c2", "v2"]
+CARR_TEMPS = ["ca", "cb"]
 ADVERSARIAL = {
     "real": ["tmp", "temp", "tmp_0", "temp_0", "ifthenelse_result", "temp__state_y", "temp_x"],
     "uvec": ["temp_k1", "tmp_1", "temp"],
@@ -89,7 +93,7 @@ class Gen:
 
     def names_of(self, typ):
         if typ == "arr":
-            return [n for n, t in self.defined.items() if isinstance(t, list)]
+            return [n for n, t in self.defined.items() if isinstance(t, list) and t[0] == "arr"]
         return [n for n, t in self.defined.items() if t == typ]
 
     def define(self, name, typ):
@@ -266,6 +270,69 @@ class Gen:
         if k == "isnan":
             return ["call", "<builtin>isnan", [V(self.choice(self.names_of(REAL)))], {}]
         raise AssertionError(k)
+
+    # ---- complex-valued scalars (kind-inference profiles only; the exact reference cannot run them)
+    def cplx_leaf(self):
+        cv = self.names_of(CPLX)
+        if cv and self.chance(60):
+            return V(self.choice(cv))
+        return C(["complex", self.choice([0, 1, 0.5]), self.choice([1, -1, 2, 0.5])])
+
+    def cplx_expr(self, depth):
+        if depth <= 0:
+            return self.cplx_leaf()
+        k = self.choice(["leaf", "sum", "sum", "prod", "prod"])
+        if k == "leaf":
+            return self.cplx_leaf()
+        ch = [self.cplx_expr(depth - 1)]
+        for _ in range(self.draw(st.integers(1, 2))):
+            ch.append(self.cplx_expr(depth - 1) if self.chance(30) else self.real_expr(min(depth - 1, 1)))
+        ch = list(self.draw(st.permutations(ch)))
+        return normal([k] + ch)
+
+    def op_assign_cplx(self):
+        pers = [n for n in ["<p>cz"] if self.types.get(n) == CPLX]
+        name = self.fresh_or_existing(CPLX, CPLX_TEMPS, pers)
+        if name is None:
+            return []
+        rhs = self.cplx_expr(self.draw(st.integers(0, 2)))
+        self.define(name, CPLX)
+        self.features.add("complex")
+        return [["assign", name, None, rhs, []]]
+
+    def op_assign_carr(self):
+        """Complex array: complex scalar times a real array (either order), optionally plus arrays."""
+        arrs = self.names_of("arr")
+        if not arrs:
+            return []
+        a = self.choice(arrs)
+        n = self.defined[a][1]
+        cands = [x for x in CARR_TEMPS if self.types.get(x, ["carr", n]) == ["carr", n]]
+        if not cands:
+            return []
+        name = self.choice(cands)
+        fac = [self.cplx_leaf(), V(a)]
+        if self.chance(50):
+            fac.reverse()
+        rhs = normal(["prod"] + fac)
+        same = [x for x, t in self.defined.items() if t == ["carr", n]]
+        if self.chance(40):
+            other = V(self.choice(same)) if same and self.chance(50) else V(a)
+            terms = [rhs, other]
+            if self.chance(50):
+                terms.reverse()
+            rhs = normal(["sum"] + terms)
+        self.define(name, ["carr", n])
+        self.features.add("complex_array")
+        return [["assign", name, None, rhs, []]]
+
+    def op_real_from_cplx(self):
+        cv = self.names_of(CPLX)
+        name = self.fresh_or_existing(REAL, self.REAL_TEMPS)
+        if not cv or name is None:
+            return []
+        self.define(name, REAL)
+        return [["call", [name], "<builtin>elementwise_abs", [V(self.choice(cv))], {}]]
 
     def coef(self, depth):
         """A real coefficient for a vector/array term: never the literal 0 (flatten would
@@ -643,9 +710,15 @@ class Gen:
                 kinds += ["exit"] if self.chance(15) else []
             if self.p["fresh_names"]:
                 kinds += ["fresh"]
+            if self.p["complex_vars"]:
+                kinds += ["cplx", "cplx", "cplx", "fromcplx"]
             k = self.choice(kinds)
             if k == "fresh":
                 new = self.op_fresh()
+            elif k == "cplx":
+                new = self.op_assign_cplx()
+            elif k == "fromcplx":
+                new = self.op_real_from_cplx() if self.chance(60) else self.op_assign_carr()
             elif k == "real":
                 new = self.op_assign_real()
             elif k == "uvec":
@@ -738,6 +811,8 @@ def methods(draw, profile=None):
         pers["<p>n"] = INT
     if p["arrays"] and p["persistent_arrays"] and g.chance(30):
         pers["<p>hist"] = "parr"
+    if p["complex_vars"] and g.chance(50):
+        pers["<p>cz"] = CPLX
     # prologue of the initial phase assigns every <p> variable unconditionally
     prologue = []
     for n, t in pers.items():
@@ -762,6 +837,9 @@ def methods(draw, profile=None):
         elif t == UVEC:
             prologue.append(["assign", n, None, normal(["prod", C(2), V("<state>y")]), []])
             g.define(n, UVEC)
+        elif t == CPLX:
+            prologue.append(["assign", n, None, C(["complex", 1, 1]), []])
+            g.define(n, CPLX)
         elif t == "parr":
             r = g.int_expr(1, 4)
             nt, nv = r
@@ -770,8 +848,12 @@ def methods(draw, profile=None):
             g.define(n, ["arr", nv])
     persistent_defined = dict(g.defined)
     phases = []
+    persistent_types = dict(g.types)
     for i, name in enumerate(names):
         g.defined = dict(persistent_defined)
+        # temporaries die with the step, so a name may be re-used with another type in another phase
+        g.types = dict(persistent_types)
+        g.ints = {n: v for n, v in g.ints.items() if n in persistent_types}
         body = list(prologue) if i == 0 else []
         body += g.block(0, draw(st.integers(1, p["max_ops"])))
         if p["yields"] and g.chance(50):
@@ -779,6 +861,16 @@ def methods(draw, profile=None):
         if g.chance(60):
             body += g.op_time_advance()
         phases.append({"name": name, "next": draw(st.sampled_from(names)), "body": body})
+    if p["assign_all_state"]:
+        # kind inference can only type a persistent variable that is assigned somewhere
+        extra = []
+        for n in sorted(state):
+            full = "<state>" + n
+            if pers[full] == UVEC:
+                extra.append(["call", [full], "<func>f", [V("<t>"), V(full)], {}])
+            else:
+                extra.append(["assign", full, None, normal(["sum", V(full), V("<dt>")]), []])
+        phases[-1]["body"] = phases[-1]["body"] + extra
     return {"phases": phases, "initial": names[0], "state": state,
             "t0": draw(st.sampled_from([0, 0, 1, 0.5])), "dt0": draw(st.sampled_from([1, 0.5, 0.25, 2])),
             "ulen": g.ulen, "features": sorted(g.features)}
